@@ -27,7 +27,7 @@ EXPLANATION = 'theorems about the model of the Storage builder and the reported 
 
 
 def scenarios(seed, tier):
-    n = 150 if tier == 'quick' else 2000
+    n = 300 if tier == 'quick' else 3000
     rnd = random.Random(seed * 7919 + 5)
     for i in range(n):
         yield 'st%d' % i, ST.gen_case(random.Random(rnd.getrandbits(48)))
